@@ -46,15 +46,7 @@ def load_claims():
         claim(mod.ID, m["engine"], m["technique"], m["text"], m["note"], m["ref"], mod.LEVEL)
 
 
-_UNGATED = ("simulation target per DESIGN.md §3; simcheck/props/{m}.py exists but has not been through the "
-            "determinism, sensitivity-mutant and multi-seed gates of DESIGN.md §1.3, so it is not claimed and nothing "
-            "it reports is offered as evidence (DESIGN.md §8.1)")
-PLANNED = {
-    "C21": _UNGATED.format(m="c21"),
-    "C22": _UNGATED.format(m="c22"),
-    "C26": _UNGATED.format(m="c26"),
-    "C31": "simulation target per DESIGN.md §3 (E5 in-process vs. subprocess replica) but its check is not built; not claimed",
-}
+PLANNED: dict = {}
 
 
 def main():
@@ -88,7 +80,7 @@ def main():
         "setup_cmd": "./setup.sh",
         "hooks": {
             "guard": "PYNGUIN_VERIF",
-            "enable": "no hooks in /repo: every seam is a module-level name rebound by the harness at run time (randomness.RNG, time.*, execution.threading, execution_isolation.threading, master.mp/master.time); checks import pynguin from /repo/src via PYTHONPATH",
+            "enable": "no hooks in /repo: every seam is a module-level name rebound by the harness at run time (randomness.RNG, time.*, execution.threading, execution_isolation.threading, master.mp/master.time, subprocess_executor.mp); checks import pynguin from /repo/src via PYTHONPATH",
             "baseline_off_cmd": "/venv/bin/python tools/baseline_check.py",
             "source_commits": [],
             "add_only": True,
@@ -97,12 +89,14 @@ def main():
             {"name": "E2-executor", "path": "simcheck/execsim.py", "serves_properties": ["C32", "C05", "C30"],
              "kind_free_text": "real TestCaseExecutor/ExecutionTracer threads stepped by a seeded baton scheduler (simcheck/sched.py) on a simulated clock"},
             {"name": "E1-pipeline", "path": "simcheck/pipeline.py",
-             "serves_properties": ["C10", "C13", "C14", "C16", "C17", "C18", "C19"],
+             "serves_properties": ["C10", "C13", "C14", "C16", "C17", "C18", "C19", "C21", "C22", "C26"],
              "kind_free_text": "generator.run_pynguin end to end in a forked child: SimClock on the time module, instrumented randomness.RNG (draw log, buggified boundary draws), executor/exporter threads under the time-driven baton scheduler, content-keyed injected execution timeouts, monitors at iteration and phase boundaries"},
             {"name": "E3-master-worker", "path": "simcheck/props/c33.py", "serves_properties": ["C33"],
              "kind_free_text": "master/worker restart protocol on a fake transport and simulated clock plus real forked workers with injected crashes"},
             {"name": "E4-stateful", "path": "simcheck/opsenv.py", "serves_properties": ["C12", "C15", "C29", "C34"],
              "kind_free_text": "seeded operation-and-fault histories on real components against a small reference model, ddmin-minimised"},
+            {"name": "E5-replicas", "path": "simcheck/props/c31.py", "serves_properties": ["C31"],
+             "kind_free_text": "in-process executor and real forked subprocess executor as two replicas on one simulated clock; the multiprocess seam of subprocess_executor is replaced by a transport whose poll timeout is decided in simulated time (child reports its elapsed simulated time on a side pipe); injected result loss, transport delay, child crash"},
         ],
         "checks": checks,
         "not_applicable": na,
